@@ -448,6 +448,10 @@ func opCodec(pi *pkgInfo, c *Cmd) {
 			m++
 		}
 	}
+	// payloads beyond buffer sizes (every decoder, bytes of the real encoder)
+	if c.Big {
+		opBigStream(pi, c, m)
+	}
 }
 
 // opCuts: every strict prefix of the reference encoding into both checked decoders.
